@@ -92,6 +92,8 @@ def gen_times(rng, n, scale_class, min_gap):
     if scale_class == "epoch":
         return epoch_times(rng, n, min_gap), {"epoch"}
     cands = number_classes(rng)
+    if scale_class == "negative":  # Praat allows times below zero; the whole tier is moved 25 s to the left
+        cands = [("negative" if v < 25.0 else c, v - 25.0) for c, v in cands]
     if scale_class == "big":
         cands += big_numbers(rng) * 3
     if scale_class == "tiny":
@@ -156,7 +158,7 @@ def _gen_textgrid(rng, ntiers=(1, 5), nentries=(0, 7), keywords=False, min_gap=2
                  blank_labels=True, ws_labels=False):
     """A well-formed textgrid as plain data + the set of number classes used."""
     if scale_class is None:
-        scale_class = rng.choice(["normal", "normal", "normal", "big", "tiny" if min_gap == 0 else "normal", "epoch"])
+        scale_class = rng.choice(["normal", "normal", "normal", "big", "tiny" if min_gap == 0 else "normal", "epoch", "negative"])
     tiers = []
     classes = set()
     names = []
